@@ -585,7 +585,7 @@ def eval_dyad_join(a, b, backend):
         if a_is_1d_plus and b_is_1d_plus:
             if len(a) == 0:
                 return b
-            if len(a.shape) == len(b.shape) and a.shape[-1] == b.shape[-1]:
+            if a.shape[1:] == b.shape[1:]:
                 return bknp.concatenate((a,b))
 
     aa = _arr_to_list(a)
@@ -595,7 +595,7 @@ def eval_dyad_join(a, b, backend):
     nr = backend.kg_asarray(r)
     # Check dtype kind for compatibility across backends
     dtype_kind = backend.get_dtype_kind(nr)
-    if dtype_kind in ('i', 'f', 'u'):
+    if dtype_kind in ('i', 'f', 'u') or isinstance(nr, numpy.ndarray):
         return nr
     # Use numpy directly for object arrays (backends without object dtype need this)
     # Convert backend arrays to numpy first (needed for device-backed arrays)
